@@ -35,5 +35,6 @@ Definition icc_copied (x : xsetup) : bool := gen_icc_copied (copy_opt x) (saved_
 Definition inst_bytes (x : xsetup) : Z := if gen_writes_inst (x_inst x) (icc_copied x) then x_inst x else 0.
 Definition icc_written (x : xsetup) : Z := copied_bytes x + inst_bytes x.
 
-Definition valid_setup (x : xsetup) : Prop := 0 <= x_save x <= 4 /\ 0 <= x_src x /\ 0 <= x_inst x.
+Definition valid_setup (x : xsetup) : Prop :=
+  gen_savemarkers_min <= x_save x <= gen_savemarkers_max /\ 0 <= x_src x /\ 0 <= x_inst x.
 
